@@ -52,25 +52,27 @@ Proof.
   intro oks. simpl. rewrite arch_closes_closed by reflexivity. simpl. auto.
 Qed.
 
-(* the failing-write case as the code has it: the temp filesystem is closed by the finally,
-   _closed stays false, so every later close() attempts the write again and fails *)
+(* the failing-write case: the failure is reported by that close(), the filesystem is closed all the same, the
+   write is attempted exactly once whatever is called afterwards, and no complete archive is claimed *)
 Theorem archive_close_after_failure : forall oks,
-  a_closed (arch_closes (false :: oks) arch_init) = false
+  a_closed (arch_closes (false :: oks) arch_init) = true
   /\ a_complete (arch_closes (false :: oks) arch_init) = 0
-  /\ a_writes (arch_closes (false :: oks) arch_init) = S (length oks).
+  /\ a_writes (arch_closes (false :: oks) arch_init) = 1
+  /\ snd (arch_close false arch_init) = Crash RawOSError.
 Proof.
-  intro oks. simpl.
-  assert (H : forall l a, a_closed a = false -> a_temp_closed a = true ->
-            a_closed (arch_closes l a) = false /\ a_complete (arch_closes l a) = a_complete a
-            /\ a_writes (arch_closes l a) = length l + a_writes a).
-  { induction l as [|ok r IH]; intros a Hc Ht; simpl; [auto|].
-    unfold arch_close. rewrite Hc, Ht. rewrite andb_false_r. simpl.
-    destruct (IH {| a_closed := false; a_temp_closed := true; a_writes := S (a_writes a);
-                    a_complete := a_complete a |} eq_refl eq_refl) as [H1 [H2 H3]].
-    rewrite H1, H2, H3. simpl. repeat split; lia. }
-  destruct (H oks {| a_closed := false; a_temp_closed := true; a_writes := 1; a_complete := 0 |}
-              eq_refl eq_refl) as [H1 [H2 H3]].
-  rewrite H1, H2, H3. simpl. repeat split; lia.
+  intro oks. simpl. rewrite arch_closes_closed by reflexivity. simpl. auto.
+Qed.
+
+(* close() is final whatever the first write does: every later close() returns normally and changes nothing *)
+Theorem archive_close_final : forall ok oks ok',
+  let a := arch_closes (ok :: oks) arch_init in
+  a_closed a = true /\ arch_close ok' a = (a, Ok tt) /\ a_writes a = 1.
+Proof.
+  intros ok oks ok'. cbn zeta. cbn [arch_closes].
+  assert (Hc : a_closed (fst (arch_close ok arch_init)) = true) by (destruct ok; reflexivity).
+  rewrite (arch_closes_closed oks _ Hc).
+  split; [exact Hc|]. split; [apply arch_close_idempotent; exact Hc|].
+  destruct ok; reflexivity.
 Qed.
 
 Theorem members_closed_iff_auto_close : forall auto members,
